@@ -5,6 +5,7 @@ spec/FormatDiff.tla     scan_diff as a line machine over abstract patches vs the
 spec/FormatDiffObs.tla  the clauses evaluated by TLC on runs of the real tool
 """
 import json
+import re
 import os
 import random
 import shutil
@@ -26,7 +27,14 @@ if st >= 128:
     os.kill(os.getpid(), st - 128)
 sys.exit(st)
 """
-FILTER_ARGS = {"rs": [], "src": ["-f", "src/.*"], "none": ["-f", "nomatch_[0-9]"]}
+FILTER_ARGS = {"rs": [], "src": ["-f", "src/.*"], "none": ["-f", "nomatch_[0-9]"],
+               # regular expressions whose leftmost-first match is not their longest one, optional
+               # groups, classes: the filter selects the paths it matches AS A WHOLE
+               "alt": ["-f", r".*\.(rs|rs\.in)"], "lazy": ["-f", r".*?\.rs"],
+               "opt": ["-f", r".*\.rs(\.in)?"], "cls": ["-f", r"src/[a-x]\.rs"],
+               "alt2": ["-f", r"src/(x|x\.rs\.d/z|y)\.rs"]}
+FILTER_RE = {"rs": r".*\.rs", "alt": r".*\.(rs|rs\.in)", "lazy": r".*?\.rs", "opt": r".*\.rs(\.in)?",
+             "cls": r"src/[a-x]\.rs", "alt2": r"src/(x|x\.rs\.d/z|y)\.rs"}
 
 
 def render(patch):
@@ -85,7 +93,9 @@ def real_patches(rng, n):
         with Scratch("c19d") as d:
             for side in ("a", "b"):
                 (d / side / "src").mkdir(parents=True)
-            names = ["src/x.rs", "src/y.rs", "src/notes.txt"]
+            names = ["src/x.rs", "src/y.rs", "src/notes.txt", "src/gen.rs.in", "src/x.rs.d/z.rs"]
+            (d / "a" / "src" / "x.rs.d").mkdir()
+            (d / "b" / "src" / "x.rs.d").mkdir()
             for nm in names:
                 base = [f"line {i} of {nm}" for i in range(1, rng.randint(3, 14))]
                 new = list(base)
@@ -111,6 +121,7 @@ def real_patches(rng, n):
             r = subprocess.run(["diff", "-r", "-N", f"-U{ctx}", "a", "b"], cwd=d,
                                capture_output=True, text=True)
             text = r.stdout
+        flt = sorted(FILTER_RE)[k % len(FILTER_RE)] if k % 2 else "rs"
         exp = []
         cur, remain_old, remain_new = None, 0, 0
         for ln in text.split("\n"):
@@ -136,9 +147,9 @@ def real_patches(rng, n):
                 ns = int(nn[1:].split(",")[0])
                 nc = int(nn.split(",")[1]) if "," in nn else 1
                 remain_old, remain_new = oc, nc
-                if cur and cur.endswith(".rs") and nc > 0:
+                if cur and re.fullmatch(FILTER_RE[flt], cur) and nc > 0:
                     exp.append([cur, ns, ns + nc - 1])
-        out.append({"text": text, "p": 1, "flt": "rs", "exp": exp, "tag": f"diff-U{ctx}"})
+        out.append({"text": text, "p": 1, "flt": flt, "exp": exp, "tag": f"diff-U{ctx}"})
     return out
 
 
